@@ -97,7 +97,7 @@ CLAIMED = {
             "C07_symbolic_is_concrete, C07_symbolic_is_execution, C07_symbolic_occupancy; every pmapping template the real mapper builds for random single-Einsum specs is captured together with run_model's formulas; at every perfect assignment (capped per template) every formula (latency, dynamic / leak energy, per-component actions, per-memory usage) is evaluated by exact substitution and by the code's own compile_dict path and compared with the concrete evaluation of the instantiated mapping (python twin of MiniForge for all, real evaluate_mapping for a sample); the rows of the table _make_tile_shapes emits are compared the same way; the Coq symbolic evaluator is run on the same templates; on architectures with spatial fanouts (outside MiniForge) the compiled-formula values of every returned mapping are compared with the standalone concrete evaluation of that mapping by the real model. PARTIAL: the theorem covers single Einsum, temporal loops and memories (MiniForge class); sympy / symengine / lambdify are oracles.",
             "Coq kernel; MiniForge modelled class; sympy arithmetic trusted as oracle and checked end to end"),
     "C08": ("Coq proof (symbol-by-symbol enumeration with Pareto pruning of partial assignments on a criteria vector emits, after Pareto filtering, exactly the objective vectors of the Pareto-filtered exhaustive enumeration - any number of symbols, prefix-dependent candidates, any validity and objectives - under soundness of the criteria; a boolean check decides that hypothesis on concrete spaces; unsound criteria refuted by witness) + the real _make_tile_shapes table against exhaustive enumeration of every perfect assignment of every captured template",
-            "C08_pruned_front_exact, C08_pruned_subset, C08_checked_instance, C08_unsound_criteria_refuted; for every pmapping template of real mapper runs on random single-Einsum specs (bounds up to 36, up to 5 symbols, finite buffers) the Pareto front of the emitted table equals the front over ALL valid perfect assignments (validity and objectives from the template's own formulas, cross-checked against the python twin; formulas tied to concrete evaluation by C07). PARTIAL: the soundness of the real criteria (built from C09's verdicts inside get_tile_shape_choices) is the theorem's hypothesis, tested not proved; single Einsum, temporal loops and memories.",
+            "C08_pruned_front_exact, C08_pruned_subset, C08_checked_instance, C08_monotone_terms_exact (criteria built from terms in which objectives and validity are monotone are sound), C08_unsound_criteria_refuted; for every pmapping template of real mapper runs on random single-Einsum specs (bounds up to 36, up to 5 symbols, finite buffers) the Pareto front of the emitted table equals the front over ALL valid perfect assignments (validity and objectives from the template's own formulas, cross-checked against the python twin; formulas tied to concrete evaluation by C07). PARTIAL: the soundness of the real criteria (built from C09's verdicts inside get_tile_shape_choices) is the theorem's hypothesis, tested not proved; single Einsum, temporal loops and memories.",
             "Coq kernel; criteria soundness is a hypothesis, exercised by the correspondence"),
     "C13": ("Coq proof (abstract join algebra: for ANY key-compatibility function, ANY monotone combination of vectors, ANY downward-closed capacity test and ANY number of tables the step-by-step join with per-key Pareto pruning of every table and every partial result emits only exhaustive combinations and covers each of them key by key, hence has the same front; pair semantics; hypothesis-free instance) + the real table join against combinations of single pmappings",
             "C13_staged_is_exhaustive, C13_pair, C13_instance; on real per-Einsum pmapping tables of random 2-3 Einsum chains (fused and unfused, tight buffers, tensors living across Einsums, max_fused_loops variations) every front row of the table-level join is reproduced by joining exactly its constituent single pmappings with objectives equal to the sums of the parts, and no combination of single pmappings (all of them when few, a random sample otherwise) beats the returned front; the GlobalBuffer usage every joined row reports is bounded by the sum of the full tiles of the storage nodes on a path of the joined LoopTree. PARTIAL: that Compatibility.merge_next / PmappingDataframe.merge_next form a compatibility function and a monotone combination is the theorem's hypothesis; the pair primitives are shared by both sides of the correspondence (reservation arithmetic of a single pair is checked only through C06 for one Einsum); join orders other than workload order are not explored.",
